@@ -7,6 +7,38 @@ def _inner(E, a, b):
     return E.tn.sum(a * b)
 
 
+def _delta_form(E, name, N, R):
+    """a TT tensor in the block form in which tangent vectors are stored ([[V,0],[S,U]] cores, U left-orthogonal, V right-orthogonal,
+    S arbitrary) for frames U, V that have nothing to do with the base point: still just some tensor of ranks 2R to be projected"""
+    tn = E.tn
+    d = len(N)
+
+    def frame(k, left):
+        r0, n, r1 = R[k], N[k], R[k + 1]
+        vals = [[[0.0] * r1 for _ in range(n)] for _ in range(r0)]
+        if left:                       # columns of the (r0 n) x r1 unfolding: the last r1 unit vectors
+            for j in range(r1):
+                row = r0 * n - 1 - j
+                vals[row // n][row % n][j] = 1.0
+        else:                          # rows of the r0 x (n r1) unfolding: the first r0 unit vectors
+            for i in range(r0):
+                col = i
+                vals[i][col // r1][col % r1] = 1.0
+        return E.const_tensor(vals, 'float64')
+    cores = []
+    for k in range(d):
+        S = E.tensor('%s%d' % (name, k), [R[k], N[k], R[k + 1]], 'float64')
+        if k == 0:
+            c = tn.cat([S, frame(k, True)], 2) if d > 1 else S
+        elif k == d - 1:
+            c = tn.cat([frame(k, False), S], 0)
+        else:
+            V, U = frame(k, False), frame(k, True)
+            c = tn.cat([tn.cat([V, tn.zeros([R[k], N[k], R[k + 1]], dtype=tn.float64)], 2), tn.cat([S, U], 2)], 0)
+        cores.append(c)
+    return E.tt.TT(cores), cores
+
+
 @scenario
 def riem_projection(E, s):
     tn, tt = E.tn, E.tt
@@ -16,7 +48,10 @@ def riem_projection(E, s):
         x, xc = so_tt_input(E, 'x', N, Rx, s['patterns'], M)
     else:
         x, xc = tt_input(E, 'x', N, Rx, 'float64', M, via=s.get('via'))
-    z, zc = tt_input(E, 'z', N, s['Rz'], 'float64', M)
+    if s.get('z_form') == 'delta':
+        z, zc = _delta_form(E, 'z', N, Rx)
+    else:
+        z, zc = tt_input(E, 'z', N, s['Rz'], 'float64', M)
     if s.get('z_rounded'):
         # the projected tensor comes out of round(): its cores are right-orthogonal, the base point's are not
         z = z.round()
